@@ -70,12 +70,15 @@ def series_runs(ctx, rng, count):
         lines = []
         for _ in range(rng.randint(0, 4)):
             lines.append(b" ".join(rng.choice(toks) for _ in range(rng.randint(0, 4))))
+        if rng.random() < 0.4:
+            # lines that are not empty but hold no word
+            lines.insert(rng.randint(0, len(lines)), rng.choice([b" ", b"   ", b"\t", b" \t ", b"\r", b"\x0b", b"\x0c "]))
         series = b"\n".join(lines) + (b"\n" if rng.random() < 0.8 else b"")
         if rng.random() < 0.2:
             series = bytes(rng.randrange(256) for _ in range(rng.randint(0, 30)))
         applied = None
         if rng.random() < 0.3:
-            applied = rng.choice([b"p.patch\n", b"\xff\n", b"p.patch\nq.patch\nr.patch\n", b"", b"x -p"])
+            applied = rng.choice([b"p.patch\n", b"\xff\n", b"p.patch\nq.patch\nr.patch\n", b"", b"x -p", b"p.patch\n \n", b"\t\n", b"   "])
         d = ws.make_workspace({"f": (b"aaa\n", None)}, {"p.patch": b"--- a/f\n+++ b/f\n@@ -1 +1 @@\n-aaa\n+bbb\n", "q.patch": b""},
                               series, applied, prefix="c11s")
         args = rng.choice([["-a"], [], ["2"], ["p.patch"], ["-a", "-q"], ["nosuch"], ["0"]])
